@@ -328,11 +328,64 @@ def explore_histories(ctx, base, n):
             ctx.sample({"crash_history": {"ops": [list(o) for o in ops], "host": host, "crash_at": k, "of": a["ncalls"], "rounds_to_settle": b["rounds"]}})
 
 
+def explore_scan_completion(ctx, base):
+    """a scan request is completed by a task that cannot start while an import it queued is still running (any number of workers): a kill
+    with an import in flight therefore finds the request still pending, and the restart scans again"""
+    import shutil
+
+    from alpenhorn.daemon import update as U
+    from alpenhorn.scheduler import FairMultiFIFOQueue
+
+    for nfiles in (1, 2, 3):
+        for taken in range(1, nfiles + 1):
+            shutil.rmtree(base, ignore_errors=True)
+            w.fresh_db(host="h1")
+            g = w.mkgroup("g")
+            node = w.mknode(base, "n1", g, stype="F", host="h1")
+            root = pathlib.Path(node.root)
+            (root / "acq1").mkdir()
+            for i in range(nfiles):
+                (root / "acq1" / f"f{i}.dat").write_bytes(b"x" * (i + 1))
+            w.ArchiveFileImportRequest.create(node=node, path="acq1", recurse=True, register=True)
+            queue = FairMultiFIFOQueue()
+            un = U.UpdateableNode(queue, w.StorageNode.get(id=node.id))
+            un.update_import()
+            t, key = queue.get(timeout=0.01)  # the scan task
+            t()
+            queue.task_done(key)
+            running = []
+            for _ in range(taken):  # workers take imports and are still busy with them
+                it = queue.get(timeout=0.01)
+                if it is None:
+                    break
+                running.append(it)
+            names = [str(x[0]) for x in running]
+            # one more worker asks for work while those imports are in flight
+            extra = []
+            while True:
+                it = queue.get(timeout=0.01)
+                if it is None:
+                    break
+                extra.append(str(it[0]))
+                running.append(it)
+            req = w.ArchiveFileImportRequest.get()
+            ctx.count("scan-completion")
+            ctx.distinct_add(("scan-completion", nfiles, taken))
+            rp = {"family": "scan-completion", "files": nfiles, "imports_in_flight": names, "handed_out_next": extra}
+            if any("Complete scan" in x for x in extra) and any("Import" in x for x in names):
+                ctx.fail("C09:scan-completed-early", f"with the imports {names} still in flight another worker was handed {extra}: the scan request is completed while an import it stands for "
+                         f"has not run (a kill now loses that import for good)", rp)
+            for it in running:
+                queue.task_done(it[1])
+    shutil.rmtree(base, ignore_errors=True)
+
+
 def explore(ctx):
     base = ctx.tmp()
     q = ctx.quick()
     explore_items(ctx, base, 12 if q else 600)
     explore_imports(ctx, base)
+    explore_scan_completion(ctx, base / "scandone")
     explore_histories(ctx, base, 15 if q else 400)
 
 
